@@ -26,6 +26,7 @@ HARNESSES = {
                           ['src/ty/path.rs Path::from_segments', 'Path::ident', 'Path::namespace', 'Path::is_empty'], 900),
     'from_segments_3x4': (False, '<= 3 segments x <= 4 ASCII bytes, is_rust_identifier replaced by its contract (stub_verified)',
                           ['src/ty/path.rs Path::from_segments', 'Path::ident', 'Path::namespace', 'Path::is_empty'], 3600),
+    'from_segments_mono_2x3': (False, '<= 2 segments x <= 3 ASCII bytes, monolithic', ['src/ty/path.rs Path::from_segments', 'Path::ident', 'Path::namespace', 'src/utils.rs is_rust_identifier'], 1200),
     'path_new_small': (False, 'module path <= 4 ASCII bytes, ident <= 2', ['src/ty/path.rs Path::new', 'Path::new_with_replace'], 1800),
     'path_new_with_replace_small': (False, 'ident/key/value <= 2 ASCII bytes, one-entry table', ['src/ty/path.rs Path::new_with_replace'], 1800),
     # C06
